@@ -9,6 +9,8 @@ import ALock.Lemmas.OnceCell
 import ALock.Lemmas.Barrier
 import ALock.Lemmas.SemWoken
 import ALock.Lemmas.MutexWoken
+import ALock.Lemmas.BarrierWoken
+import ALock.Lemmas.OnceCellWoken
 
 /-!
 # C17 — Blocked operations sleep: no busy-waiting
@@ -43,8 +45,9 @@ model's settle (`settled k` compares the number of polls and the wakers called) 
 and the harness evaluates the bound `polls ≤ 5·pending` on the implementation at every settle.
 
 That `woken` only ever names pending futures, each at most once (`woken ≤ pending`) is proved for
-the Semaphore and the Mutex (`C17_sem_woken_le`, `C17_mutex_woken_le`; bounds in `pending` alone:
-`C17_sem_pending`, `C17_mutex_pending`); for the other three primitives it is not proved (the
+the Semaphore, the Mutex, the Barrier and the OnceCell (`C17_sem_woken_le`, `C17_mutex_woken_le`,
+`C17_barrier_woken_le`, `C17_once_woken_le`; bounds in `pending` alone: `C17_sem_pending`,
+`C17_mutex_pending`, `C17_barrier_pending`, `C17_once_pending`); for the RwLock it is not proved (the
 harness's woken set is a set of pending future ids by construction).
 Polls are atomic; thread interleavings and parked threads are outside the model.
 -/
@@ -559,6 +562,19 @@ theorem C17_once (ops : List Op) {n : Nat} {s' : Sys} (h : Repolls (run {} ops) 
   have := phi_le (run {} ops)
   omega
 
+/-- outstanding wake-ups never outnumber the registered listeners (of both events together), which
+never outnumber the pending callers (`Lemmas/OnceCellWoken.lean`) -/
+theorem C17_once_woken_le (ops : List Op) :
+    (run {} ops).woken.length ≤ (pendingPolled (run {} ops)).length := woken_le ops
+
+/-- **C17 (OnceCell), in the number of pending callers alone**: at most `4 × pending` re-polls. -/
+theorem C17_once_pending (ops : List Op) {n : Nat} {s' : Sys} (h : Repolls (run {} ops) n s') :
+    n ≤ 4 * (pendingPolled (run {} ops)).length := by
+  have := C17_once ops h
+  have := C17_once_woken_le ops
+  have := listeners_le ops
+  omega
+
 end ALock.Once
 
 namespace ALock.Barrier
@@ -634,6 +650,19 @@ theorem C17_barrier (n0 : Nat) (ops : List Op) {n : Nat} {s' : Sys}
     n ≤ (run { n := n0 } ops).woken.length + 2 * (pendingPolled (run { n := n0 } ops)).length := by
   have := repolls_phi (reachable_binv n0 ops) h
   have := phi_le (run { n := n0 } ops)
+  omega
+
+/-- outstanding wake-ups never outnumber the pending waits (`Lemmas/BarrierWoken.lean`) -/
+theorem C17_barrier_woken_le (n0 : Nat) (ops : List Op) :
+    (run { n := n0 } ops).woken.length ≤ (pendingPolled (run { n := n0 } ops)).length :=
+  woken_le n0 ops
+
+/-- **C17 (Barrier), in the number of pending waits alone**: at most `3 × pending` re-polls. -/
+theorem C17_barrier_pending (n0 : Nat) (ops : List Op) {n : Nat} {s' : Sys}
+    (h : Repolls (run { n := n0 } ops) n s') :
+    n ≤ 3 * (pendingPolled (run { n := n0 } ops)).length := by
+  have := C17_barrier n0 ops h
+  have := C17_barrier_woken_le n0 ops
   omega
 
 end ALock.Barrier
